@@ -351,6 +351,60 @@ func main() {
 			}
 		}
 	}
+	// ---- replies come back in the order of the commands, also when an earlier reply is expensive to write
+	// and a later one cheap: LRANGE of a long list, then PING / ECHO / LLEN in the same segment
+	if failures == 0 {
+		emu, port := startEmu()
+		c := dial(port)
+		enc := func(a ...string) []byte {
+			b := make([][]byte, len(a))
+			for i, x := range a {
+				b[i] = []byte(x)
+			}
+			return respio.EncodeCmd(b)
+		}
+		elems := 30000
+		for i := 0; i < elems/1000; i++ {
+			args := []string{"RPUSH", "frame:big"}
+			for j := 0; j < 1000; j++ {
+				args = append(args, fmt.Sprintf("element-%d-%d", i, j))
+			}
+			c.Write(enc(args...))
+			readReplies(c, 1, 10*time.Second)
+		}
+		for round := 0; round < 6 && failures == 0; round++ {
+			var buf []byte
+			buf = append(buf, enc("LRANGE", "frame:big", "0", "-1")...)
+			buf = append(buf, enc("PING")...)
+			buf = append(buf, enc("ECHO", "a")...)
+			buf = append(buf, enc("LLEN", "frame:big")...)
+			c.Write(buf)
+			rs, err := readReplies(c, 4, 20*time.Second)
+			stats["ordered_reply_rounds"]++
+			want := []string{fmt.Sprintf("*%d\r\n", elems), "+PONG\r\n", "$1\r\na\r\n", fmt.Sprintf(":%d\r\n", elems)}
+			detail := ""
+			if err != nil {
+				detail = "pipeline LRANGE big / PING / ECHO a / LLEN big: " + err.Error()
+			} else {
+				for i, w := range want {
+					if !bytes.HasPrefix(rs[i], []byte(w)) {
+						detail = fmt.Sprintf("pipeline LRANGE big (%d elements) / PING / ECHO a / LLEN big: reply %d starts with %.40q, expected %q — the replies are not in the order of the commands", elems, i+1, rs[i], w)
+						break
+					}
+				}
+			}
+			if detail != "" {
+				failures++
+				pth := fmt.Sprintf("%s/%s-frame-order-%d.json", *replayDir, *prop, *seed)
+				data, _ := json.MarshalIndent(map[string]any{"property": *prop, "what": "order of replies", "detail": detail}, "", " ")
+				os.MkdirAll(*replayDir, 0o755)
+				os.WriteFile(pth, data, 0o644)
+				fmt.Printf("FRAME-FAIL property=%s replay=%s detail=%s\n", *prop, pth, detail)
+			}
+		}
+		c.Close()
+		emu.Close()
+	}
 	res := map[string]any{"stats": stats, "samples": samples, "failures": failures, "wall_s": time.Since(start).Seconds()}
 	if *out != "" {
 		data, _ := json.MarshalIndent(res, "", " ")
